@@ -73,6 +73,10 @@ struct Ckpt {
     /// compaction also deleted the covered segment objects
     delete_objects: bool,
     timestamp_ms: u64,
+    /// the checkpoint object is produced by CheckpointManager::create_checkpoint (the production
+    /// path: what it writes for a given state is its business) instead of CheckpointWriter::write
+    #[serde(default)]
+    via_manager: bool,
 }
 
 #[derive(Clone, Debug, Serialize, Deserialize, Hash)]
@@ -152,13 +156,15 @@ fn arrangement() -> impl Strategy<Value = Arrangement> {
                 any::<bool>(),
                 any::<bool>(),
                 0u64..1 << 40,
+                any::<bool>(),
             )
-                .prop_map(|(covers, extra, compacted, delete_objects, timestamp_ms)| Ckpt {
+                .prop_map(|(covers, extra, compacted, delete_objects, timestamp_ms, via_manager)| Ckpt {
                     covers,
                     extra,
                     compacted,
                     delete_objects,
                     timestamp_ms,
+                    via_manager,
                 }),
         ),
         any::<bool>(),
@@ -519,17 +525,38 @@ fn build(d: &[ReplicationDelta], arr: &Arrangement) -> Result<Built, String> {
         }
         let state: HashMap<String, ReplicatedValue> =
             fold(in_checkpoint.iter().map(|&i| &d[i])).into_iter().collect();
-        let key_count = state.len() as u64;
-        let img = CheckpointWriter::new(Compression::None)
-            .write(state, c.timestamp_ms, last_id)
-            .map_err(|e| format!("CheckpointWriter::write: {}", e))?;
-        let key = format!("{}/checkpoints/chk-{:016}.chk", PREFIX, c.timestamp_ms);
-        ready(store.put(&key, &img)).map_err(|e| e.to_string())?;
-        let info = CheckpointInfo {
-            key,
-            timestamp_ms: c.timestamp_ms,
-            key_count,
-            last_segment_id: last_id,
+        let info = if c.via_manager {
+            let cm = redis_sim::streaming::CheckpointManager::with_time_source(
+                Arc::new(store.clone()),
+                PREFIX.to_string(),
+                mm.clone(),
+                redis_sim::streaming::CheckpointConfig {
+                    interval: std::time::Duration::from_secs(3600),
+                    min_segments: 1,
+                    compression_enabled: false,
+                },
+                VerifTime::new(c.timestamp_ms),
+            );
+            let cr = ready(cm.create_checkpoint(state, last_id)).map_err(|e| format!("create_checkpoint: {}", e))?;
+            CheckpointInfo {
+                key: cr.key,
+                timestamp_ms: cr.timestamp_ms,
+                key_count: cr.key_count,
+                last_segment_id: cr.last_segment_id,
+            }
+        } else {
+            let key_count = state.len() as u64;
+            let img = CheckpointWriter::new(Compression::None)
+                .write(state, c.timestamp_ms, last_id)
+                .map_err(|e| format!("CheckpointWriter::write: {}", e))?;
+            let key = format!("{}/checkpoints/chk-{:016}.chk", PREFIX, c.timestamp_ms);
+            ready(store.put(&key, &img)).map_err(|e| e.to_string())?;
+            CheckpointInfo {
+                key,
+                timestamp_ms: c.timestamp_ms,
+                key_count,
+                last_segment_id: last_id,
+            }
         };
         if c.compacted {
             let gone: Vec<String> = manifest.segments[..covered].iter().map(|s| s.key.clone()).collect();
@@ -1175,6 +1202,7 @@ fn boundary_arrangement(kind: u8, base: &Arrangement) -> Arrangement {
         compacted,
         delete_objects: base.checkpoint.as_ref().map(|c| c.delete_objects).unwrap_or(false),
         timestamp_ms: base.checkpoint.as_ref().map(|c| c.timestamp_ms).unwrap_or(1),
+                    via_manager: false,
     };
     let no_wal = |a: &mut Arrangement| {
         a.wal_mode = 1;
